@@ -75,11 +75,18 @@ func sortPairsV(p []vecPair) {
 
 // vecSearch runs one search through the public API and returns the (doc, score) pairs.
 func vecSearch(seg segment.Segment, field string, q []float32, k int64, except *roaring.Bitmap, filter bool, eligible []uint64) ([]vecPair, error) {
+	return vecSearchOpen(seg, field, q, k, except, filter, filter, eligible)
+}
+
+// vecSearchOpen separates how the handle is opened (requiresFiltering) from
+// which search is run through it: a plain Search through a filtering-capable
+// handle is legitimate API use.
+func vecSearchOpen(seg segment.Segment, field string, q []float32, k int64, except *roaring.Bitmap, openFilter, filter bool, eligible []uint64) ([]vecPair, error) {
 	vs, ok := seg.(segment.VectorSegment)
 	if !ok {
 		return nil, fmt.Errorf("%T is no VectorSegment", seg)
 	}
-	vi, err := vs.InterpretVectorIndex(field, filter, except)
+	vi, err := vs.InterpretVectorIndex(field, openFilter, except)
 	if err != nil {
 		if vi != nil {
 			vi.Close()
@@ -238,7 +245,7 @@ func (f *fieldStats) Store(statName, fieldName string, value uint64) {
 	}
 	f.m[statName][fieldName] = value
 }
-func (f *fieldStats) Aggregate(segment.FieldStats)          {}
+func (f *fieldStats) Aggregate(segment.FieldStats)        {}
 func (f *fieldStats) Fetch() map[string]map[string]uint64 { return f.m }
 
 // numVectorsStat returns the per-field num_vectors statistic of a segment.
